@@ -9,12 +9,12 @@ import (
 
 // VInfo mirrors lean Nfpm.VInfo.
 type VInfo struct {
-	Name, Arch, Epoch, Version, Schema, Release, Prerelease, Metadata, ArchOverride string
+	Name, Arch, Epoch, Version, Schema, Release, Prerelease, Metadata, ArchOverride, Platform string
 }
 
 func (v VInfo) Enc() string {
 	return strings.Join([]string{wire.H(v.Name), wire.H(v.Arch), wire.H(v.Epoch), wire.H(v.Version), wire.H(v.Schema),
-		wire.H(v.Release), wire.H(v.Prerelease), wire.H(v.Metadata), wire.H(v.ArchOverride)}, " ")
+		wire.H(v.Release), wire.H(v.Prerelease), wire.H(v.Metadata), wire.H(v.ArchOverride), wire.H(v.Platform)}, " ")
 }
 
 // parseControl parses an RFC822-style control file: continuation lines start
